@@ -536,7 +536,97 @@ def check_C12(tier, seed):
                                    'liveness model: sequence ids modulo 1 and no ghost bookkeeping (finite without a depth bound)'])
 
 
+
+def check_C15(tier, seed):
+    t0 = time.time()
+    build('dev')
+    build('release')
+    v = Verdict('C15')
+    acc = Acc()
+    q = tier == 'quick'
+    inv = ['Fits', 'OnlyParentPropagating', 'OrderOnce', 'PathOK', 'NoLoopAccepted', 'NoBlockedQueue']
+    props_ = ['AlwaysSent', 'NextWithRoom']
+    owns = ['out.F', 'out.Announce.tlvs', 'out.Announce.len', 'out.Announce.selfdec', 'out.len', 'path']
+    base = dict(INST_CONST)
+    base.update({'Fwd': True, 'WithOther': True})
+    def c(pcfg, lists, paths, **kw):
+        d = dict(base)
+        d.update({'PCfg': ('<-', pcfg), 'ListSet': tla_set(lists), 'PathSet': tla_set(paths)})
+        d.update(kw)
+        return d
+    w2 = world([e2e(), e2e()], fwd=True)
+    w2p = world([e2e(), e2e()], fwd=True, ptrace=True)
+    w3 = world([e2e(), e2e(), e2e(mo=True)], fwd=True)
+    small = [1, 2, 3, 4, 5, 6, 7, 8, 9]
+    invb = [i for i in inv if i != 'NoBlockedQueue']     # suites that contain a TLV which can never be sent (the recorded finding) leave it out
+    run_inst_suite('C15', v, acc, 'C15-sizes', 'MCFwd', c('PCfg_2', small, [0]), w2, 4 if q else 5, seed, owns, ['C15', 'C03'], invariants=invb, properties=props_)
+    run_inst_suite('C15', v, acc, 'C15-sizes-release', 'MCFwd', c('PCfg_2', [2, 3, 5, 8], [0]), w2, 4 if q else 5, seed, owns, ['C15', 'C03'], invariants=invb, properties=props_, profile='release')
+    run_inst_suite('C15', v, acc, 'C15-fitting', 'MCFwd', c('PCfg_2', [1, 2, 3, 4, 6, 7, 8, 9], [0]), w2, 4 if q else 5, seed, owns, ['C15', 'C03'], invariants=inv, properties=props_)
+    run_inst_suite('C15', v, acc, 'C15-several', 'MCFwd', c('PCfg_2', [1, 6, 11], [0]), w2, 5 if q else 7, seed, owns, ['C15', 'C03'], invariants=inv, properties=props_)
+    run_inst_suite('C15', v, acc, 'C15-path-trace', 'MCFwd', c('PCfg_2', [0, 1, 3, 5], [1, 2, 3, 4, 5], PTrace=True), w2p, 4 if q else 5, seed, owns, ['C15', 'C03'],
+                   invariants=invb, properties=props_)
+    run_inst_suite('C15', v, acc, 'C15-path-as-tlv', 'MCFwd', c('PCfg_2', [0, 1], [0, 1, 3, 5]), w2, 4 if q else 5, seed, owns, ['C15', 'C03'], invariants=invb, properties=props_)
+    run_inst_suite('C15', v, acc, 'C15-two-masters', 'MCFwd', c('PCfg_3', [1, 3, 8, 11], [0]), w3, 4 if q else 6, seed, owns, ['C15', 'C03'], invariants=inv, properties=props_)
+    # a TLV larger than any Announce: the recorded finding (queue blocked for ever); everything else must still hold
+    run_inst_suite('C15', v, acc, 'C15-oversize', 'MCFwd', c('PCfg_2', [1, 10], [0]), w2, 4 if q else 6, seed, owns, ['C15', 'C03'], invariants=invb, properties=props_)
+    plain_tlc('C15', v, acc, 'C15-oversize-strict', 'MCFwd', c('PCfg_2', [1, 10], [0], Depth=4), invariants=['NoBlockedQueue'], expect_violation='NoBlockedQueue')
+    # forwarder lag / overflow of the 128-slot channel through the real TlvForwarder
+    ov = run_driver('fwdlag', ['--seed', str(seed)], 'C15-fwdlag', timeout=600)
+    acc.suites.append({'suite': 'C15-fwdlag', 'driver': 'harness/src/bin/fwdlag.rs', 'result': {k: ov[k] for k in ov if k != 'violations'}})
+    acc.events += ov.get('calls', 0)
+    for item in ov.get('violations', []):
+        v.add({'kind': 'predicate', 'key': 'C15/fwdlag', 'detail': item['detail'], 'replay': item['replay']})
+    return finish('C15', tier, seed, 'model_checking', v, acc, t0,
+                  EDGE_RULE + '; TLVs are abstract [type, value length, tag] records with integer room accounting; the replay uses the real TlvForwarder',
+                  COMMON_ASSUME + ['the host forwards ForwardTLV actions to every port\'s receiver and never empties a receiver (UDP port task of the daemon); '
+                                   'the ethernet port task empties a master port\'s receiver at every BMCA, which drops TLVs received since the last Announce - observed in the model, '
+                                   'not exercised on the daemon'])
+
+
+
+def check_C03(tier, seed):
+    t0 = time.time()
+    build('dev')
+    build('release')
+    v = Verdict('C03')
+    acc = Acc()
+    q = tier == 'quick'
+    owns = ['panic']
+    w1 = world(asym([e2e()]))
+    w1p = world(asym([e2e()]), ptrace=True)
+    wp = world(asym([p2p()]))
+    w2 = world([e2e(), e2e()], fwd=True, ptrace=True)
+    # model-derived: (reachable state) x (boundary-class input) edges, both profiles. Only unwinds count here; value
+    # departures on out-of-range inputs belong to the owners of those fields.
+    suites = [
+        ('C03-slave-extremes', port_consts(['x_sync', 'x_ann', 'tdreq', 'ts', 'annP', 'bmca'], Prefix=('<-', 'PrefixSlave'), PTrace=True), w1p, 3 if q else 4),
+        ('C03-master-extremes', port_consts(['x_master', 'x_ts', 'tsync', 'tann', 'ts'], Prefix=('<-', 'PrefixMaster')), w1, 3 if q else 4),
+        ('C03-pd-extremes', port_consts(['x_pd', 'tdreq', 'ts', 'x_ts', 'trcpt'], PCfg=('<-', 'PCfg_P')), wp, 4 if q else 5),
+        ('C03-listening-extremes', port_consts(['x_ann', 'x_sync', 'bmca', 'trcpt', 'so', 'q'], PTrace=True), w1p, 3 if q else 4),
+    ]
+    for name, c, w, d in suites:
+        for prof in ('dev', 'release'):
+            run_inst_suite('C03', v, acc, '%s-%s' % (name, prof), 'MCPort', c, w, d, seed, owns, ['C03'], profile=prof)
+    # randomised call orders with boundary values, mutated and random frames up to 2048 octets, six port configurations
+    for prof in ('dev', 'release'):
+        rb = run_driver('robust', ['--seed', str(seed), '--runs', '3000' if q else '60000', '--len', '200'], 'C03-robust-' + prof, profile=prof, timeout=3000)
+        acc.suites.append({'suite': 'C03-robust-' + prof, 'driver': 'harness/src/bin/robust.rs', 'result': {k: rb[k] for k in rb if k != 'violations'}})
+        acc.events += rb.get('calls', 0)
+        acc.edges += rb.get('runs', 0)
+        acc.distinct += len(rb.get('events_by_kind', {}))
+        for item in rb.get('violations', []):
+            v.add({'kind': 'predicate', 'key': 'C03/robust', 'detail': item['detail'], 'replay': item['replay']})
+    return finish('C03', tier, seed, 'exploration', v, acc, t0,
+                  'model-derived: TLC enumerates (reachable abstract state, boundary-class input) edges - correction fields {min, max, +-1 ns, +-1 unit, 0}, timestamps '
+                  '{0, 1 ns, sub-ns only, second carry, 2^48 s - 1, 2^63 ns - 1}, stepsRemoved {254, 255, 65535}, path trace lengths {1, 127, 128, 129, 200}, TLV sizes around '
+                  'the Announce room - each replayed in the debug-assertion/overflow-check profile and the release profile; plus randomised call sequences with the same classes, '
+                  'mutated and random frames up to 2048 octets on six port configurations; a case is non-trivial if it changes state or returns actions',
+                  COMMON_ASSUME + ['values inside a boundary class are sampled per seed', 'the nesting-detecting mutex stands in for RefCell/RwLock: an unwind inside a lock span is reported as poisoning'])
+
+
 CHECKS = {
+    'C03': check_C03,
+    'C15': check_C15,
     'C12': check_C12,
     'C07': check_C07,
     'C10': check_C10,
